@@ -6,7 +6,7 @@
 #include "tree.h"
 
 static const char *UNI[T_MAXU] = { "10-a.conf", "9-b.conf", "B.conf", "README", "a.conf", ".h.conf", ".conf", "x.conf.bak" };
-typedef struct { int layers; int sfx; int dirs; int cds; } shape_t;
+typedef struct { int layers; int sfx; int dirs; int cds; int hollow; } shape_t;
 /* sfx: 0 "conf", 1 ".conf", 2 "" ; dirs: 0 both, 1 NULL first, 2 "" first, 3 NULL second, 4 "" second ; cds: 0 default, 1 econf_set_conf_dirs */
 static shape_t SH[64]; static int NSH;
 static const char *SFX[3] = { "conf", ".conf", "" };
@@ -21,6 +21,9 @@ static void build_shapes(void)
 {
   for (int cds = 0; cds < 2; cds++) for (int sfx = 0; sfx < 3; sfx++) for (int dirs = 0; dirs < 5; dirs++) { shape_t s = { 2, sfx, dirs, cds }; SH[NSH++] = s; }
   for (int cds = 0; cds < 2; cds++) for (int sfx = 0; sfx < 3; sfx++) { shape_t s = { 3, sfx, 0, cds }; SH[NSH++] = s; }
+  /* the first drop-in name of the highest layer is a file without keys (the usual way to disable a vendor drop-in) */
+  { shape_t s = { 2, 0, 0, 0, 1 }; SH[NSH++] = s; }
+  { shape_t s = { 3, 1, 0, 0, 1 }; SH[NSH++] = s; }
 }
 
 static void setup(int shi)
@@ -47,6 +50,7 @@ static void setup(int shi)
     if (l == 1 && (s.dirs == 3 || s.dirs == 4)) d = "";
     o += (size_t)snprintf(pd_option + o, sizeof pd_option - o, "%s%s", l ? ":" : "", d);
   }
+  t_opt_hollow = s.hollow;
   t_build_contents();
   t_disk = t_content;
   t_setup_dirs();
@@ -112,7 +116,7 @@ static void exec(void)
   for (int l = 0; l < ts.nlayers; l++) if (layer_dead(l)) { eff.mainst[l] = M_ABSENT; for (int c = 0; c < ts.ncd; c++) eff.drop[l][c] = 0; }
   int list[T_MAXF];
   int nlist = t_ref_list(&eff, list);
-  sb_printf(&sig, "layers=%d suffix=\"%s\" dirs-variant=%d confdirs=%s tree=", s.layers, SFX[s.sfx], s.dirs, s.cds ? "econf_set_conf_dirs{.d,.alt.d}" : "default");
+  sb_printf(&sig, "layers=%d suffix=\"%s\" dirs-variant=%d confdirs=%s%s tree=", s.layers, SFX[s.sfx], s.dirs, s.cds ? "econf_set_conf_dirs{.d,.alt.d}" : "default", s.hollow ? " (10-a.conf of the highest layer has no keys)" : "");
   t_describe(&sig, &want);
   snprintf(mc_case_sig, sizeof mc_case_sig, "%s", sig.s);
   mc_log("%s\n", sig.s);
